@@ -1,4 +1,5 @@
-(* C05 property theorems (statements only; proofs in C05/Proofs.v, Trim.v, Tables.v). *)
+(* C05 property theorems about the CURRENT code (statements only; proofs in C05/Proofs.v, Trim.v,
+   Tables.v, Optimal.v).  Pre-fix variants and their refutations: C05/Historic.v. *)
 From Coq Require Import ZArith QArith List Bool.
 From QV Require Import C05.Model C05.Proofs C05.Trim C05.Tables C05.Optimal.
 Import ListNotations.
@@ -49,30 +50,19 @@ Theorem C05_generic_kept_eq_numba_kept : forall m cutoff max_bond renorm s, nonn
 Proof. exact kept_agree. Qed.
 Print Assumptions C05_generic_kept_eq_numba_kept.
 
-(* Whole results (kept values, renorm factor, error^2) agree whenever renormalisation is off
-   or its power is the cutoff mode's power ... *)
-Theorem C05_trim_generic_eq_numba_partial : forall m cutoff max_bond renorm s, nonneg s -> s <> [] ->
+(* Whole results (kept values, renorm factor, error^2) of the generic and the accelerated
+   routine agree for EVERY cutoff mode, cutoff, bond cap and EVERY renorm power (after fix
+   91dfb209; the pre-fix disagreement, DESIGN F5, is kept in C05/Historic.v). *)
+Theorem C05_trim_generic_eq_numba : forall m cutoff max_bond renorm s, nonneg s -> s <> [] ->
   (max_bond = -1 \/ 1 <= max_bond)%Z ->
-  ((renorm <= 0)%Z \/ (is_sum_mode m = true /\ renorm = mode_pow m)) ->
-  exists r, g_trim m cutoff max_bond renorm s = Some r /\ trim_equiv r (n_trim m cutoff max_bond renorm s).
+  trim_equiv (g_trim m cutoff max_bond renorm s) (n_trim m cutoff max_bond renorm s).
 Proof. exact trim_agree. Qed.
-Print Assumptions C05_trim_generic_eq_numba_partial.
-
-(* ... and they do NOT agree otherwise (DESIGN F5): the generic routine renormalises with the
-   mode's power whatever `renorm` says, and has no renormalisation at all for abs / rel. *)
-Theorem C05_trim_generic_eq_numba_refuted :
-  (exists m cutoff max_bond renorm s rg fg,
-     nonneg s /\ sorted_desc s /\ g_trim m cutoff max_bond renorm s = Some rg /\ t_rn rg = Some fg
-     /\ exists fn, t_rn (n_trim m cutoff max_bond renorm s) = Some fn /\ rn_same_factor fg fn = false)
-  /\ (forall m cutoff max_bond renorm s, is_sum_mode m = false -> (0 < renorm)%Z ->
-        (g_nchi m cutoff max_bond renorm s < lenZ s)%Z -> g_trim m cutoff max_bond renorm s = None).
-Proof. exact trim_agree_refuted. Qed.
-Print Assumptions C05_trim_generic_eq_numba_refuted.
+Print Assumptions C05_trim_generic_eq_numba.
 
 (* Reported error^2 = (sum of all squares) - (sum of kept squares) = sum of discarded squares. *)
 Theorem C05_error_is_discarded_weight : forall m cutoff max_bond renorm s, (max_bond = -1 \/ 1 <= max_bond)%Z ->
   (let r := n_trim m cutoff max_bond renorm s in t_err2 r == sumsq s - sumsq (t_svals r))
-  /\ (forall r, g_trim m cutoff max_bond renorm s = Some r -> t_err2 r == sumsq s - sumsq (t_svals r)).
+  /\ (let r := g_trim m cutoff max_bond renorm s in t_err2 r == sumsq s - sumsq (t_svals r)).
 Proof. exact error_stmt. Qed.
 Print Assumptions C05_error_is_discarded_weight.
 
@@ -116,39 +106,36 @@ Theorem C05_isom_flag_iff_bare_factor : forall a, In a all_codes -> flag_entry_o
 Proof. exact flag_table_ok. Qed.
 Print Assumptions C05_isom_flag_iff_bare_factor.
 
-(* Relative to the driver contract table (validated on the implementation by the harness): the
-   flags are sound for every method that honours `absorb`, and for every method's default ... *)
-Theorem C05_isom_flags_sound_partial :
-  (forall m a, In m all_meths -> In a all_aargs -> honours_absorb m = true -> isom_sound_entry m a = true)
-  /\ (forall m, In m all_meths -> isom_sound_entry m AAuto = true).
-Proof. exact isom_flags_sound_stmt. Qed.
-Print Assumptions C05_isom_flags_sound_partial.
+(* Relative to the driver contract table (validated on the implementation by the harness, per
+   shape class): the flags handed to Tensor(left_inds=...) are sound for EVERY method, every
+   absorb request and every shape class (cholesky and the polar drivers included, after fix
+   740177ad; the pre-fix unsoundness, DESIGN F7, is kept in C05/Historic.v) - except ... *)
+Theorem C05_isom_flags_sound : forall m sh a, In m all_meths -> In sh all_shapes -> In a all_aargs ->
+  polar_non_square m sh = false -> isom_sound_entry m sh a = true.
+Proof. exact isom_flags_sound_all. Qed.
+Print Assumptions C05_isom_flags_sound.
 
-(* ... and unsound for cholesky / polar_left / polar_right with a non-default absorb (DESIGN F7) *)
-Theorem C05_isom_flags_sound_refuted :
-  isom_sound_entry MCholesky (ACode (Some get_U_sVH)) = false
-  /\ isom_sound_entry MCholesky (ACode (Some get_Us_VH)) = false
-  /\ isom_sound_entry MPolarLeft (ACode (Some get_U_sVH)) = false
-  /\ isom_sound_entry MPolarRight (ACode (Some get_Us_VH)) = false.
-Proof. exact isom_flags_refuted. Qed.
-Print Assumptions C05_isom_flags_sound_refuted.
+(* ... STILL OPEN in the current code: polar_right on a wide / polar_left on a tall matrix flags
+   the factor W VH, which is only a partial isometry in the other direction, for every absorb
+   request the driver accepts (known finding tensor_split:isom_flag:polar_*:non_square). *)
+Theorem C05_isom_flags_polar_non_square_refuted :
+  isom_sound_entry MPolarRight Wide AAuto = false /\ isom_sound_entry MPolarLeft Tall AAuto = false
+  /\ (forall a, In a all_aargs -> a <> ACode None ->
+        isom_sound_entry MPolarRight Wide a = false /\ isom_sound_entry MPolarLeft Tall a = false).
+Proof. exact isom_flags_polar_non_square_refuted. Qed.
+Print Assumptions C05_isom_flags_polar_non_square_refuted.
 
 Theorem C05_parse_method_absorb_resolves : forall m a t, In m all_meths -> In a all_aargs ->
   registered (fst (parse_method_absorb m a t)) = true /\ code_in (snd (parse_method_absorb m a t)) all_codes = true.
 Proof. exact parse_method_absorb_resolves. Qed.
 Print Assumptions C05_parse_method_absorb_resolves.
 
-(* functools.cache on parse_split_opts: transparent for every call history without a
-   Python-equal / option-different pair of keys ... *)
-Theorem C05_parse_opts_cache_transparent_partial : forall calls, collision_free calls ->
-  cached_run [] calls = pure_run calls.
-Proof. exact cache_transparent_if_collision_free. Qed.
-Print Assumptions C05_parse_opts_cache_transparent_partial.
-
-(* ... and history dependent in general: renorm=True after renorm=1 (DESIGN F6) *)
-Theorem C05_parse_opts_cache_transparent_refuted : exists calls, cached_run [] calls <> pure_run calls.
-Proof. exact cache_history_refuted. Qed.
-Print Assumptions C05_parse_opts_cache_transparent_refuted.
+(* The cache on parse_split_opts (typed keys after fix 29128285) is transparent for EVERY call
+   history, renorm=True after renorm=1 included (the pre-fix history dependence, DESIGN F6, is
+   kept in C05/Historic.v). *)
+Theorem C05_parse_opts_cache_transparent : forall calls, cached_run [] calls = pure_run calls.
+Proof. exact cache_transparent. Qed.
+Print Assumptions C05_parse_opts_cache_transparent.
 
 Example C05_examples :
   (* ties: weight equal to the target is discarded (code's <=, docs say <) *)
@@ -161,6 +148,9 @@ Example C05_examples :
   /\ do_absorb (Some get_U_sVH) = Some (LU, false, RsVH)
   /\ parse_method_absorb MLq AAuto true = (MQr, Some get_Us_VH)
   /\ parse_isom MLq AAuto = (false, true)
-  /\ cached_run [] [(RSum2, PInt 1); (RSum2, PBool true)] = [1; 1]%Z
+  /\ parse_isom MCholesky (ACode (Some get_U_sVH)) = (false, false)
+  /\ parse_isom MPolarRight (ACode (Some get_Us_VH)) = (true, false)
+  /\ t_rn (g_trim RSum2 (6 # 100) (-1) 1 [4 # 1; 2 # 1; 1 # 1; 1 # 2]) = Some (1%Z, 15 # 2, 6 # 1)
+  /\ cached_run [] [(RSum2, PInt 1); (RSum2, PBool true)] = [1; 2]%Z
   /\ pure_run [(RSum2, PInt 1); (RSum2, PBool true)] = [1; 2]%Z.
 Proof. vm_compute. repeat split. Qed.
